@@ -69,3 +69,30 @@ Print Assumptions C12_dispatch.
 Print Assumptions C12_site_batch.
 Print Assumptions C12_rule.
 Print Assumptions C12_copies_equal_256.
+
+(** Sub-listeners added to a Dispatch later: the struct's incremental bookkeeping (NewDispatch's
+    loop, then any number of AddListener calls) presents exactly the Subscriptions() /
+    Components() the model computes from the whole list, so what it delivers is [recipients]
+    of the whole list - and by [C12_dispatch] each sub-listener, early or late, receives what
+    it would receive alone.  The mirror [d_add] of AddListener is tied to the code by the
+    correspondence run, which compares Subscriptions()/Components() of every Dispatch it builds
+    (sub-listeners given at construction, added before and after SetListener) with [outer_cfg]. *)
+From Arche Require Import Proofs.DispatchAdd.
+Theorem C12_dispatch_add_cfg : forall ls more,
+  let d := foldl d_add (d_new ls) more in
+  d_subs d = ls ++ more /\ d_cfg d = outer_cfg (LDispatch (ls ++ more)).
+Proof. exact dispatch_add_cfg. Qed.
+Theorem C12_dispatch_add_recipients : forall ls more bits a r o n eva evr,
+  let d := foldl d_add (d_new ls) more in
+  (if gate (d_cfg d) bits a r o n then
+     omap (fun '(i, l) => if gate l bits (Some eva) (Some evr) o n then Some i else None)
+          (imap (fun i l => (i, l)) (d_subs d))
+   else []) = recipients (LDispatch (ls ++ more)) bits a r o n eva evr.
+Proof. exact dispatch_add_recipients. Qed.
+Example C12_dispatch_add_nonvacuous :
+  d_cfg (foldl d_add (d_new [mkL 1 (Some 2%N)]) [mkL 4 (Some 8%N)]) = mkL 5 (Some 10%N) /\
+  d_cfg (foldl d_add (d_new [mkL 1 (Some 2%N)]) [mkL 4 None; mkL 8 (Some 1%N)]) = mkL 13 None /\
+  outer_cfg (LDispatch [mkL 1 (Some 2%N); mkL 4 None; mkL 8 (Some 1%N)]) = mkL 13 None.
+Proof. exact demo_dispatch_add. Qed.
+Print Assumptions C12_dispatch_add_cfg.
+Print Assumptions C12_dispatch_add_recipients.
